@@ -134,6 +134,15 @@ pub fn run(rep: &mut Report, tier: &str, seed: u64) {
     let mut drv = Driver::spawn();
     let root = Rng::new(seed);
     let pool = pool();
+    // inputs of the known findings of this property (known_findings.json) are always run
+    for text in crate::props::c07::KNOWN_FINDING_INPUTS {
+        rep.case(text, false);
+        rep.count("known-finding-inputs");
+        if real_load(text).is_err() {
+            let model = model_load(&mut drv, text);
+            rep.fail("impl-panic", &crate::props::c07::load_panic_signature("C06", &model), true, json!({"text": text, "model": model.pretty()}));
+        }
+    }
     for ci in 0..n {
         let mut r = root.fork(ci as u64);
         let mode: u8 = match ci % 6 { 0 => 0, 1 | 2 | 3 => 1, 4 => 2, _ => 0 };
@@ -145,7 +154,8 @@ pub fn run(rep: &mut Report, tier: &str, seed: u64) {
             Ok(x) => x,
             Err(()) => {
                 rep.case(&text, false);
-                rep.fail("impl-panic", "C06 loading panics", true, json!({"text": text}));
+                let model = model_load(&mut drv, &text);
+                rep.fail("impl-panic", &crate::props::c07::load_panic_signature("C06", &model), true, json!({"text": text, "model": model.pretty()}));
                 continue;
             }
         };
